@@ -16,8 +16,8 @@ import (
 )
 
 func (sc Scenario) consts(loadMode string, maxCrashes int) string {
-	return fmt.Sprintf(" Others = %d\n PhaseLen = %d\n DealBlock = %d\n AccBlock = %d\n SyncEvery = %d\n SyncOff = %d\n LoadMode = %q\n MaxCrashes = %d\n",
-		sc.Cfg.N-1, sc.Cfg.PhaseLen, sc.DealBlock, sc.AccBlock, sc.SyncEvery, sc.SyncOff, loadMode, maxCrashes)
+	return fmt.Sprintf(" Others = %d\n PhaseLen = %d\n DealBlock = %d\n AccBlock = %d\n LateCheckin = %d\n Overlap = %s\n SyncEvery = %d\n SyncOff = %d\n LoadMode = %q\n MaxCrashes = %d\n",
+		sc.Cfg.N-1, sc.Cfg.PhaseLen, sc.DealBlock, sc.AccBlock, sc.LateBlock, boolText(sc.Cfg.Overlap), sc.SyncEvery, sc.SyncOff, loadMode, maxCrashes)
 }
 
 // CrashGen is what TLC produced for the KeyperCrash model.
